@@ -28,7 +28,7 @@ ASSUMPTIONS = ["jax.vmap f = map f, jax.jit f = f, lax.scan = fold, swapaxes = t
                "a traced dealiasing_fraction = 2/3 on grids with N//2 = 3 (cut-off exactly on mode 1; XLA contracted 2/3*3 - 1 to 1 - 2^-53 under jit and "
                "dropped that mode before the repair 462054c) is exercised on every run by the test dealias_boundary and by D = 2, N = 6 in the sweeps"]
 
-SIZES = {1: 10, 2: 6, 3: 4}
+SIZES = {1: 10, 2: 6, 3: 6}
 TOL = 1e-11
 SKIP_PARAMS = {"num_spatial_dims", "num_points", "num_circle_points", "order", "injection_mode"}
 NO_ZERO = {"domain_extent", "circle_radius", "maximum_absolute"}      # 0.0 there means a division by zero on both sides
